@@ -3,7 +3,7 @@
 plan = {"engine":"pair","seed":..,"cfg":{...},"ops":[...],"until":..}
 cfg: nodes: {"A": {"role":"offerer", "timings":{..}}, "B": {"role":"watcher", ...}, ("C": {"role":"bystander"})}
      net: {latency, jitter, windows:[{t0,t1,kind,rate,(node)}], partitions:[{t0,t1,a:[..],b:[..]}]}, mc_loop, drift:{node: rate}
-ops: {"k":"node","t":..,"n":"A","f":"stop"|"start"|"crash"|"restart"}
+ops: {"k":"node","t":..,"n":"A","f":"stop"|"start"|"crash"|"restart"(,"late":true: after the datagrams of that instant)}
      {"k":"stall","t":..,"n":"A","d":seconds}
      {"k":"inject","t":..,"to":"A","ch":"u"|"m","src":[host,port],"hex":".."}   (C03: corrupted / foreign datagrams)
 """
@@ -201,9 +201,9 @@ def execute(plan):
                     if r == "skip":
                         sim.rec("op-skip", node.actor, (idx, f))
 
-                sim.at(t, "op", (ENV_CTX, _wrap(in_ctx), ("env", "env", idx, f, ())))
+                sim.at(t, "op", (ENV_CTX, _wrap(in_ctx), ("env", "env", idx, f, ())), late=bool(op.get("late")))
             else:
-                sim.at(t, "op", (ENV_CTX, _wrap(fn), ("env", "env", idx, f, ())))
+                sim.at(t, "op", (ENV_CTX, _wrap(fn), ("env", "env", idx, f, ())), late=bool(op.get("late")))
         elif k == "stall":
             node = nodes[op["n"]]
 
